@@ -85,6 +85,9 @@ func (g *unigen) defsKW() string {
 }
 
 var anchorNames = []string{"t", "t", "u", "A1", "x-y"}
+
+// d7AnchorNames: draft-07 plain names may also contain ':' and '.' ([A-Za-z][-A-Za-z0-9_:.]*); 2020-12 $anchor may not hold ':'.
+var d7AnchorNames = []string{"t", "u", "A1", "x-y", "net:port", "a.b", "x_y", "n:", "v1.2-rc_3:x"}
 var odd = []string{"a/b", "~", "a b", "%25", "é", "0", "-", "", "a+b", "c++", "a&b=c", "x;y", "q?r"}
 
 // NewUniverse generates a topology for C03.
@@ -245,6 +248,9 @@ func (g *unigen) newContainer(d *udoc, uri, idSpelling string) *ures {
 		n := map[string]any{"const": lf.marker}
 		if g.r.IntN(2) == 0 {
 			a := Pick(g.r, anchorNames)
+			if g.d7 {
+				a = Pick(g.r, d7AnchorNames)
+			}
 			if !used[a] && !(g.d7 && !isD7Anchor(a)) {
 				used[a] = true
 				lf.anchor = a
